@@ -582,7 +582,9 @@ class Interp:
         if isinstance(p, Rec) and p._ident is not None:
             f = z3.Function(f"str_{p._ident.sort().name()}", p._ident.sort(), z3.StringSort())
             return f(p._ident)
-        if isinstance(p, (Rec, ClassRec, ExcVal, FuncVal, list, dict, tuple, type(None), bool, int, float)):
+        if isinstance(p, (type(None), bool, int, float)):
+            return z3.StringVal(str(p))
+        if isinstance(p, (Rec, ClassRec, ExcVal, FuncVal, list, dict, tuple)):
             return z3.StringVal(f"<{type(p).__name__}>")
         raise OutOfReach(f"str() of {type(p).__name__}")
 
